@@ -110,6 +110,7 @@ class FuncSpec:
         self.exit = "return"  # return | none | raise | mixed
         self.subdeco = False  # decorate through a subclass of classmethod / staticmethod / property
         self.wrapped = False  # behind a functools.wraps wrapper written with a plain def
+        self.single_yield = False  # one yield statement cycling through the values: calls with equal arguments yield different types
 
     @property
     def qual(self):
@@ -158,7 +159,7 @@ class FuncSpec:
         body = []
         for y in ([self.yield_vals] if self.yield_vals else []):
             body.append(f"yield pick({self.idx * 10 + 1}, [{', '.join(y)}])")
-            if len(y) > 1:
+            if len(y) > 1 and not self.single_yield:
                 body.append(f"yield pick({self.idx * 10 + 2}, [{', '.join(reversed(y))}])")
         if self.exit == "raise":
             body.append("raise Err('x')")
@@ -283,6 +284,7 @@ class Mod:
             if flavor == "gen":
                 n = rng.choice([1, 2])
                 f.yield_vals = [prefix_keys(e, f"y{idx}") if unique else e for e in rng.sample(self.value_pool(), n)]
+                f.single_yield = idx % 2 == 0
                 f.exit = rng.choice(["return", "none", "none", "raise"])
                 if f.exit == "return":
                     f.ret_vals = [rng.choice(["1", "'s'", "A()", "None", "[1]"])]
